@@ -57,9 +57,15 @@ func drawC18(t *rapid.T) c18Case {
 	if archName == "i386" {
 		otherArch = "x86_64"
 	}
-	used := map[string]bool{}
+	// boundary names: the smallest numbers of the table (0 in particular) and the largest one
+	tbl := spec.ArchInfo(archName).SyscallNumbers
+	nums0 := tableNumbers(archName)
+	boundary := []string{tbl[nums0[0]], tbl[nums0[1]], tbl[nums0[len(nums0)-1]]}
+	inOther := map[string]bool{} // names already used by the other flag set (the two sets are disjoint)
 	pick := func(label string, preferFound bool) string {
-		switch k := rapid.IntRange(0, 9).Draw(t, label+"Class"); {
+		switch k := rapid.IntRange(0, 10).Draw(t, label+"Class"); {
+		case k == 10:
+			return boundary[rapid.IntRange(0, len(boundary)-1).Draw(t, label+"Boundary")]
 		case k < 5 && len(found) > 0 && preferFound:
 			return found[rapid.IntRange(0, len(found)-1).Draw(t, label+"Found")]
 		case k < 8:
@@ -81,16 +87,26 @@ func drawC18(t *rapid.T) c18Case {
 	seps := []string{",", " ", ";", ", ", " ; "}
 	build := func(label string, preferFound bool) []string {
 		var flags []string
+		mine := map[string]bool{}
 		nflags := rapid.IntRange(0, 3).Draw(t, label+"Flags")
 		for f := 0; f < nflags; f++ {
 			var names []string
 			k := rapid.IntRange(1, 4).Draw(t, label+"Names")
 			for i := 0; i < k; i++ {
 				n := pick(label, preferFound)
-				if used[n] {
-					continue // the two flag sets are disjoint (and free of repetitions)
+				if inOther[n] {
+					continue // the two flag sets are disjoint; repetitions inside one set are fine
 				}
-				used[n] = true
+				if len(mine) > 0 && rapid.IntRange(0, 4).Draw(t, label+"Repeat") == 0 {
+					// repeat a name given before (same or earlier flag)
+					var prev []string
+					for m := range mine {
+						prev = append(prev, m)
+					}
+					sort.Strings(prev)
+					n = prev[rapid.IntRange(0, len(prev)-1).Draw(t, label+"RepeatWhich")]
+				}
+				mine[n] = true
 				names = append(names, n)
 			}
 			if len(names) > 0 {
@@ -100,6 +116,11 @@ func drawC18(t *rapid.T) c18Case {
 		return flags
 	}
 	c.Blacklist = build("b", true)
+	for _, v := range c.Blacklist {
+		for _, n := range splitFlag(v) {
+			inOther[n] = true
+		}
+	}
 	c.Allow = build("allow", false)
 	return c
 }
